@@ -444,7 +444,7 @@ def run(ctx):
                 judge(acc, "bytes", src, ("bytes", b + b"a"), outs, lambda r, out, st=st, style=style, v=b + b"a": f"{r} bytes {st} {single_char_probe('bytes', style, False, r, v) or 'multi-char-interaction'} obs={diag.oclass(out)}")
     acc.exhaustive.append("27 code-point representatives x 4 quoting styles x 6 spellings (strings); 256 octets x 4 styles x 4 spellings (bytes)")
 
-    n = ctx.scale(9000, 560000)
+    n = ctx.scale(40000, 800000)
     for j in range(n):
         if ctx.expired():
             break
